@@ -217,16 +217,27 @@ def forward_rule(run, fh, rid):
             if not hk or not cu:
                 why.append("dispatch does not consult both hook() and SchedulableCoroutine::current()")
             else:
-                br = bool_branch(b, cfg, du, hk[0][1]["dest"]["l"], cfg.after(hk[0][0]))
-                if not br or cx not in cfg.reachable({br[0]}, avoid={rx}) or rx in cfg.reachable({br[0]}, avoid={cx}):
-                    why.append("with hooking enabled the call is not (always) routed to the core syscall")
-                isn = [(x, t) for (x, t) in b.calls() if norm(t.get("callee") or "") == "std::option::Option::is_some"]
-                if isn:
-                    br2 = bool_branch(b, cfg, du, isn[0][1]["dest"]["l"], cfg.after(isn[0][0]))
-                    if not br2 or rx in cfg.reachable({br2[0]}, avoid={cx}):
-                        why.append("inside a coroutine the call is not (always) routed to the core syscall")
-                else:
+                # path-sensitive: on every path to the real symbol both tests were evaluated and false; on every path to
+                # the core syscall one of them was true (or the compile-time `ci` switch routes everything there)
+                from analysis.table import PathWalker, outcome_on_path
+                isn = [(x, t) for (x, t) in b.calls() if norm(t.get("callee") or "") in ("std::option::Option::is_some", "std::option::Option::is_none")]
+                if not isn:
                     why.append("the current-coroutine test is not evaluated")
+                else:
+                    w = PathWalker(b)
+                    for (pth, _c, sv) in w.walk(0, lambda bid, t: ("core",) if bid == cx else (("raw",) if bid == rx else None)):
+                        if sv[0] not in ("core", "raw"):
+                            continue
+                        hv = outcome_on_path(b, du, pth, hk[0][0])
+                        cv = outcome_on_path(b, du, pth, isn[0][0])
+                        if cv is not None and norm(isn[0][1]["callee"]).endswith("is_none"):
+                            cv = not cv
+                        if sv[0] == "raw" and hv is not False:
+                            why.append("with hooking enabled the call is not (always) routed to the core syscall")
+                        if sv[0] == "raw" and cv is not False:
+                            why.append("inside a coroutine the call is not (always) routed to the core syscall")
+                        if sv[0] == "core" and hv is not True and cv is not True:
+                            why.append("a plain thread with hooking off is routed to the core syscall")
         if why:
             run.fail(rid, "hook::" + nm, b.loc(), "%s: %s" % (nm, "; ".join(sorted(set(why))[:4])))
         else:
